@@ -24,11 +24,25 @@ type verifRW struct {
 	buf    bytes.Buffer
 	status int
 	wrote  int
+	// sent is the header as it stood when the response was committed (first
+	// WriteHeader or Write), which is what net/http puts on the wire
+	sent http.Header
 }
 
-func (w *verifRW) Header() http.Header         { return w.h }
-func (w *verifRW) Write(b []byte) (int, error) { return w.buf.Write(b) }
-func (w *verifRW) WriteHeader(s int)           { w.status = s; w.wrote++ }
+func (w *verifRW) Header() http.Header { return w.h }
+func (w *verifRW) Write(b []byte) (int, error) {
+	if w.sent == nil {
+		w.sent = w.h.Clone()
+	}
+	return w.buf.Write(b)
+}
+func (w *verifRW) WriteHeader(s int) {
+	if w.sent == nil {
+		w.sent = w.h.Clone()
+	}
+	w.status = s
+	w.wrote++
+}
 
 const (
 	kNil = iota
@@ -342,7 +356,11 @@ func VerifC15_RequestEncoder() {
 func VerifC15_PresetContentType() {
 	var preset string
 	withParams, hasPlus := false, false
-	switch nondetChoice("preset", 5) {
+	switch nondetChoice("preset", 6) {
+	case 5:
+		preset = "text/plain; profile=" + nondetString("profile", 2)
+		verifAssume(visible(preset))
+		withParams = true
 	case 0:
 		preset = "application/vnd.api"
 	case 1:
@@ -368,7 +386,8 @@ func VerifC15_PresetContentType() {
 	verifObserve("hdr", hdr)
 	verifAssert("preset:encoder-not-nil", ek != kNil && ek != kOther)
 	changed := hdr != preset
-	for i := 0; i < len(preset); i++ {
+	// a structured-syntax suffix is part of the media type, not of its parameters
+	for i := 0; i < len(preset) && preset[i] != ';'; i++ {
 		if preset[i] == '+' {
 			hasPlus = true
 		}
